@@ -154,7 +154,7 @@ def run(check: Check) -> None:
     fns = {
         "shunting": [None], "shunting_paren": [None],
         "signrun": [{"SHARD": c, "N": (5 if thorough else 3)} for c in range(8)],
-        "identity": list(range(40)), "forms": [None], "sides": list(range(10)),
+        "identity": list(range(43)), "forms": [None], "sides": list(range(10)),
         "quoted_atom": list(range(40)) if thorough else [0, 1, 3, 8, 12, 23, 26, 27, 29, 37],
         "stream1": list(range(16)), "stream2": list(range(16)),
         "stream3": list(range(19)),
